@@ -385,6 +385,16 @@ Fixpoint ref_eval (e : env) (fuel : nat) (i : instr) (s : list value) {struct fu
       end
   end.
 
+(* a session of cells on one stack: a cell that does not terminate normally leaves the stack as it was *)
+Fixpoint ref_session (e : env) (fuel : nat) (cells : list instr) (s : list value) : list (outcome * list value) :=
+  match cells with
+  | [] => []
+  | c :: r => match ref_eval e fuel c s with
+              | Done s' => (Done s', s') :: ref_session e fuel r s'
+              | o => (o, s) :: ref_session e fuel r s
+              end
+  end.
+
 (* ---- equalities for the harness ---- *)
 Definition outcome_eqb (a b : outcome) : bool :=
   match a, b with
